@@ -142,6 +142,9 @@ pub struct WorldSpec {
     pub aux_seed: u64,
     #[serde(default)]
     pub spawn_latency_us: u64,
+    /// the TZ variable of the machine (a POSIX string with a fixed offset); None = UTC
+    #[serde(default)]
+    pub tz: Option<String>,
 }
 
 impl WorldSpec {
@@ -164,6 +167,7 @@ impl WorldSpec {
             entropy_seed: seed ^ 0x5eed,
             aux_seed: seed ^ 0xa11,
             spawn_latency_us: 0,
+            tz: None,
         }
     }
 
@@ -417,6 +421,10 @@ pub struct SlotSpec {
     /// 4 = [MIDP-1, MIDP+1]
     #[serde(default)]
     pub window: u8,
+    /// a classic response without the top-level NONC tag (another legal layout: the client must
+    /// bind the response to its own nonce, not to an echoed one)
+    #[serde(default)]
+    pub no_nonc: bool,
 }
 
 #[derive(Serialize, Deserialize, Clone, Debug, PartialEq)]
@@ -476,6 +484,12 @@ pub enum Action {
         burst_max: u32,
     },
     StartRefServer(RefServerSpec),
+    /// The real statistics `Reporter` on a queue of its own, fed by a harness task that plays the
+    /// workers: snapshots with chosen magnitudes at chosen times (counts no traffic of a simulated
+    /// run can reach). `pushes`: (microseconds after the start, rows of (address index, the eight
+    /// counters in the order of the CSV check)); the reporter is stopped `linger_ms` after the
+    /// last push.
+    ReporterDirect { interval_s: u64, pushes: Vec<(u64, Vec<(u8, [u64; 8])>)>, linger_ms: u64 },
 }
 
 #[derive(Serialize, Deserialize, Clone, Debug, PartialEq)]
